@@ -350,6 +350,7 @@ func TestCampaign(t *testing.T) {
 	col := ev.C()
 	t.Run("random", func(t *testing.T) {
 		cfg := hgen.DefaultCfg()
+		cfg.ClockPct = 10
 		cfg.FlushPct = 5
 		cfg.MinLen, cfg.MaxLen = 4, 30
 		rapid.Check(t, func(rt *rapid.T) {
